@@ -26,6 +26,7 @@ def gen_case(rng, exact):
     c['seed'] = [[a, rng.choice([rng.randint(1, 300), -rng.randint(1, 300)]) if kind == 'long_short' or rng.random() < 0.7
                   else -rng.randint(1, 50)] for a in seed_assets]
     c['t_seed'] = MON + 52200
+    c['extra_portfolios'] = rng.choice([0, 0, 1, 2])      # idle sub-portfolios in the same account
     c['seed_prices'] = [[a, price[a]] for a in ASSETS]
     rounds = []
     for k in range(n_round):
